@@ -109,3 +109,13 @@ Theorem C14_gslb_reload_history_independent : forall a b,
   NoDup (map fst a) -> NoDup (map fst b) -> pos_total a <> 0 -> gslb_after_reload a b = gslb_fresh b.
 Proof. exact gslb_reload_history_independent. Qed.
 Print Assumptions C14_gslb_reload_history_independent.
+
+(* Backends of a sub-cluster: BalanceRR.Init leaves them in file order, Update in (kept old order ++ new in map order);
+   stickyBalance sorts by AddrInfo ("addr:port", unique per sub-cluster) first.  Hence the session-sticky backend for a
+   hash value and the backend inventory depend only on the set of backends, not on the load history that ordered them
+   -- also when several backends share one Name. *)
+Theorem C14_sticky_backend_order_independent : forall bks bks' h,
+  NoDup (map addr_info bks) -> Permutation bks bks' ->
+  sticky_pick bks h = sticky_pick bks' h /\ bk_inventory bks = bk_inventory bks'.
+Proof. exact sticky_pick_perm. Qed.
+Print Assumptions C14_sticky_backend_order_independent.
